@@ -45,7 +45,18 @@ func impl(in hv.Val) hv.Val {
 		l := hv.AsList(rv)
 		rules = append(rules, ruleFile{strs(l[0]), strs(l[1]), hv.AsStr(l[2])})
 	}
-	b, err := json.Marshal(map[string]interface{}{"Version": "v1", "BasicRule": map[string]interface{}{"prod": rules}})
+	// two decoy products are loaded next to "prod": a catch-all rule, and a copy of the same rules with other
+	// cluster names.  Every product has its own tree, so they must never influence the answers for "prod"
+	// (the copy is accepted by the loader exactly when "prod" is).
+	copyRules := make([]ruleFile, len(rules))
+	for k, rl := range rules {
+		copyRules[k] = ruleFile{rl.Hostname, rl.Path, "DECOY-" + rl.ClusterName}
+	}
+	b, err := json.Marshal(map[string]interface{}{"Version": "v1", "BasicRule": map[string]interface{}{
+		"prod":   rules,
+		"decoy":  []ruleFile{{[]string{"*"}, []string{"*"}, "DECOY"}},
+		"decoy2": copyRules,
+	}})
 	if err != nil {
 		panic(err)
 	}
